@@ -1952,3 +1952,6 @@ func emitCoreFacts(repo, outDir string) int {
 	writeIfChanged(filepath.Join(outDir, "Facts.lean"), b.String())
 	return bad
 }
+// emitFacts: structural facts and kernels that need more than the shared target kinds. Each emitter is
+// independent and returns the number of targets that left the supported subset.
+func init() { factEmitters = append(factEmitters, emitGovFeeExtra, emitFactsBan) }
